@@ -59,8 +59,9 @@ def build_many(pairs, flags=(), tag=""):
 # ---------------------------------------------------------------- scripts
 class ScriptGen:
     """seeded random walks over the API of a definition"""
-    def __init__(self, d, seed, throws=0.15, subs=0.25, enq=0.1, drain=0.1, restart=0.05, maxcalls=7, maxplan=12, startsubs=0.1, copy=0.0, ninst=1):
-        self.copy = copy; self.ninst = ninst
+    def __init__(self, d, seed, throws=0.15, subs=0.25, enq=0.1, drain=0.1, restart=0.05, maxcalls=7, maxplan=12, startsubs=0.1, copy=0.0, ninst=1, evbias=0.0):
+        self.copy = copy; self.ninst = ninst; self.evbias = evbias
+        self.hot = sorted(set(e for m in d.machines.values() for st in m["states"].values() for e in st["defers"] if e in d.events))
         self.d = d; self.rnd = random.Random(seed); self.throws = throws; self.subs = subs; self.enq = enq
         self.drain = drain; self.restart = restart; self.maxcalls = maxcalls; self.maxplan = maxplan; self.startsubs = startsubs
         self.p = 0
@@ -76,8 +77,7 @@ class ScriptGen:
             if g in self.d.sticky: s.append(self.sticky[g])
             else: s.append(self.rnd.choice("01"))
         return "".join(s)
-    def directive(self, allow_throw=True):
-        n = self.rnd.randint(1, self.maxplan)
+    def directive(self, n, allow_throw=True):
         r = self.rnd.random()
         if allow_throw and r < self.throws / max(self.throws + self.subs, 1e-9):
             return "%d:throw" % n
@@ -86,13 +86,10 @@ class ScriptGen:
     def plan(self, allow_throw=True, prob=None):
         prob = (self.throws + self.subs) if prob is None else prob
         if self.rnd.random() >= prob: return "-"
-        items = [self.directive(allow_throw)]
-        if self.rnd.random() < 0.25: items.append(self.directive(allow_throw))
-        seen = set(); out = []
-        for it in items:
-            n = it.split(":")[0]
-            if n not in seen: seen.add(n); out.append(it)
-        return ",".join(out)
+        ords = {self.rnd.randint(1, self.maxplan)}
+        if self.rnd.random() < 0.25: ords.add(self.rnd.randint(1, self.maxplan))
+        # payloads are issued in execution (ordinal) order, so that numeric order = submission order
+        return ",".join(self.directive(n, allow_throw) for n in sorted(ords))
     def execution(self):
         self.sticky = {g: self.rnd.choice("01") for g in self.d.sticky}
         L = ["reset", "start 0 %s %s" % (self.gv(), self.plan(False, self.startsubs))]
@@ -113,7 +110,8 @@ class ScriptGen:
             elif r < self.restart + self.enq + self.drain:
                 L.append("%s %d %s %s" % (self.rnd.choice(["drain", "drain1"]), i, self.gv(), self.plan()))
             else:
-                L.append("pe %d %s %d %s %s" % (i, self.rnd.choice(self.d.evnames), self.newp(), self.gv(), self.plan()))
+                ev = self.rnd.choice(self.hot) if (self.hot and self.rnd.random() < self.evbias) else self.rnd.choice(self.d.evnames)
+                L.append("pe %d %s %d %s %s" % (i, ev, self.newp(), self.gv(), self.plan()))
         return L
 
 def gen_scripts(d, seed, nexec, **kw):
